@@ -359,7 +359,8 @@ impl LockStep {
     /// boundary that follows an interrupt entry (PC = 2, two bytes pushed)?
     fn sut_took_interrupt(&self) -> bool {
         let c = self.sut.registers().content();
-        c[3] == 2 && c[5] == self.rf.sp.wrapping_sub(2) && !(self.rf.r[3] == 2)
+        // (the stack pointer tells the two outcomes apart even when the next instruction is at 2)
+        c[3] == 2 && c[5] == self.rf.sp.wrapping_sub(2)
     }
 
     fn check_presses(&self, info: &StepInfo) -> Result<(), Violation> {
